@@ -220,8 +220,22 @@ func installExternals() {
 	vp("Int", func(fr *frame, args []value) value { return X.newVar(args[0].(string), types.Int) })
 	vp("Rune", func(fr *frame, args []value) value { return X.newVar(args[0].(string), types.Int32) })
 	vp("IntRange", func(fr *frame, args []value) value {
-		v := X.newVar(args[0].(string), types.Int)
 		lo, hi := asInt64(args[1]), asInt64(args[2])
+		if hi < lo {
+			panic(engineAbort{kind: "infeasible"})
+		}
+		if hi-lo <= 255 {
+			// small ranges are carried by an 8-bit offset variable so that the exact byte-domain
+			// filter decides them without the solver (the native side mirrors this encoding)
+			v := X.newVar(args[0].(string), types.Uint8)
+			s, ok := v.(*sym)
+			if !ok { // concrete run
+				return int(lo) + int(v.(uint8))
+			}
+			X.assume(mkop("bvule", 0, s.e, konst(8, uint64(hi-lo))))
+			return wrap(mkop("bvadd", 64, mkop("zext", 64, s.e), konst(64, uint64(lo))), types.Int)
+		}
+		v := X.newVar(args[0].(string), types.Int)
 		if s, ok := v.(*sym); ok {
 			X.assume(mkand(mkop("bvsle", 0, konst(64, uint64(lo)), s.e), mkop("bvsle", 0, s.e, konst(64, uint64(hi)))))
 		}
